@@ -116,7 +116,11 @@ def check_setting(part, row, table_by_number):
 
     # lookup from the full list in three orders
     full = list(sg.symmetry_operations)
-    for oname, lst in (("table", full), ("reversed", full[::-1]), ("rotated", full[1:] + full[:1])):
+    # ... and with every operation written for an atom far along the lattice (each translation shifted by its own whole lattice vector,
+    # up to 1.5e5 cells): the same operations modulo the lattice, hence the same group
+    farv = [np.array(v, dtype=float) for v in ((1000, 0, 0), (0, -20000, 0), (50000, -100000, 150000), (0, 0, 0), (-3, 7, 100000))]
+    far_shifted = [SymmetryOperation(np.array(o.rotation, dtype=float), np.array(o.translation, dtype=float) + farv[i % len(farv)]) for i, o in enumerate(full)]
+    for oname, lst in (("table", full), ("reversed", full[::-1]), ("rotated", full[1:] + full[:1]), ("far-lattice-shifted", far_shifted)):
         try:
             found = SpaceGroup.from_symmetry_operations(list(lst))
             part.trace()
